@@ -86,6 +86,8 @@ pub enum RefOp {
     LendViaHelper(u8),
     /// a burst of `n * 64` make_ref calls of the same type on instance .0
     Burst(u8, u8),
+    /// instance .0 lends a value that owns a clone of that instance (`u.make_ref(u.clone())`)
+    LendClone(u8),
 }
 
 #[derive(Clone, Copy, Debug, PartialEq, Eq, Hash, Serialize, Deserialize)]
@@ -271,6 +273,21 @@ fn run_phase<'a>(
                 push_tracked(&mut held, t, i, true);
                 stats.via_helper += 1;
             }
+            RefOp::LendClone(i) => {
+                let i = i as usize % n;
+                let holder = Tracked2(Tracked::new(&book.reg, *salt));
+                book.owned[i].push(holder.0.id);
+                let lent: &'a (Unimock, Tracked2) = insts[i].make_ref((insts[i].clone(), holder));
+                held.push(Shadow {
+                    id: Some(lent.1 .0.id),
+                    payload: Some(lent.1 .0.payload.clone()),
+                    addr: &lent.1 as *const Tracked2 as usize,
+                    lent: Lent::T2(&lent.1),
+                    unique: true,
+                    owner: i,
+                });
+                stats.lent_clone += 1;
+            }
             RefOp::Burst(i, k) => {
                 let i = i as usize % n;
                 for _ in 0..(k as usize % 4 + 1) * 64 {
@@ -313,6 +330,7 @@ struct Stats {
     same_type_reread: bool,
     make_mut: usize,
     mut_default: usize,
+    lent_clone: usize,
     threads: usize,
 }
 
@@ -505,8 +523,13 @@ fn execute_on(
         }
     }
     let o = insts.pop().unwrap();
-    // with verification enabled the drop may legitimately panic (unmet "never called" rules)
-    let _ = catch(move || drop(o));
+    // with verification enabled the drop may legitimately panic (unmet "never called" rules), but
+    // every user clone is gone and the lent values (some own a clone) must have been released first
+    if let Err(msg) = catch(move || drop(o)) {
+        if msg.contains("clones still alive") {
+            return Err(format!("dropping the original after every clone was dropped: the values it lent were not released before its verification: {msg}"));
+        }
+    }
     for id in 0..total_values as u32 {
         let d = reg.dropped(id);
         if d != 1 {
@@ -522,6 +545,9 @@ fn execute_on(
     }
     if stats.mut_default > 0 {
         classes.push("provided-&mut-self-method-phase".to_string());
+    }
+    if stats.lent_clone > 0 {
+        classes.push("lent-value-owning-a-clone".to_string());
     }
     if stats.mut_default > 0 && stats.via_helper > 0 {
         classes.push("helper-lent-values-then-&mut-delegation".to_string());
@@ -602,6 +628,7 @@ fn op_strategy() -> impl Strategy<Value = RefOp> {
         2 => i.clone().prop_map(RefOp::LendAnswered),
         2 => (i.clone(), 0..4u8).prop_map(|(a, b)| RefOp::LendReturned(a, b)),
         2 => i.clone().prop_map(RefOp::LendViaHelper),
+        1 => i.clone().prop_map(RefOp::LendClone),
         1 => (i, 0..4u8).prop_map(|(a, b)| RefOp::Burst(a, b)),
     ]
 }
